@@ -5,7 +5,8 @@ import vlib
 
 PROPS = [("Moyo.Props.C09", "Moyo/Props/C09.lean"), ("Moyo.Props.C09Stages", "Moyo/Props/C09Stages.lean"),
          ("Moyo.Props.C09Noise", "Moyo/Props/C09Noise.lean"),
-         ("Moyo.Props.C09Bound", "Moyo/Props/C09Bound.lean")]
+         ("Moyo.Props.C09Bound", "Moyo/Props/C09Bound.lean"),
+         ("Moyo.Props.C09Replay", "Moyo/Props/C09Replay.lean")]
 
 
 def twins(per_mode):
